@@ -229,10 +229,13 @@ def generate(seed, tier):
 
 
 # -------------------------------------------------------------- instantiation
-# what is left of the sheet part when Excel turns a reference into #REF!
+# what is left when Excel turns a reference into #REF!: the sheet part stays
+# (cells deleted: Sheet!#REF!) or the cell part stays (sheet deleted: #REF!A1);
+# a literal typed into a dictionary may be in lower case
 REF_QUALIFIERS = [None, None, 'Gone!', "'Q1 data'!", "'Bob''s data'!",
                   "'it''s ''x'''!", '[1]Gone!', "'[old book.xlsx]Gone'!",
-                  "'[3]Bob''s'!"]
+                  "'[3]Bob''s'!", '>A1', '>$B$2', '>A1:B2', '>$C:$C', '>2:3',
+                  'lower']
 
 
 def instantiate(world, points, on):
